@@ -199,6 +199,13 @@ func chanConsumed(m *model.Model, sc *model.SC, ch types.Object) bool {
 			if id, _ := rootIdent(x.X); id != nil && objOf(info, id) == ch {
 				found = true
 			}
+		case *ast.UnaryExpr:
+			// the receive form of the consumer loop: for { x, ok := <-ch; if !ok { break } … }
+			if x.Op == token.ARROW {
+				if id, _ := rootIdent(x.X); id != nil && objOf(info, id) == ch {
+					found = true
+				}
+			}
 		}
 		return !found
 	})
